@@ -2,7 +2,7 @@
 """Regenerates MANIFEST.json from the table below (kept in one place so it stays valid)."""
 import json, subprocess
 
-HOOK_COMMITS = ["09a7702", "2a0a33e"]
+HOOK_COMMITS = ["09a7702","2a0a33e"]
 
 CHECKS = {
  "C01": ("model_checking", "bounded exhaustive BFS over host-call histories on the real interpreter (canonical-state dedup) + exhaustive line-shape sweep + recursion-depth probe grid in isolated children",
